@@ -15,6 +15,14 @@ CHECKS = {
     ),
 }
 
+CHECKS["C10"] = dict(
+    category="exploration",
+    text="Exhaustive enumeration of Core expression trees through the public API (all 37 node kinds x slots: complete at depth <= 3 for one compound child and for both operands compound, ternary with three compound slots over one representative per Python precedence class, spines to depth 4, and in the thorough tier depth-4 inner pairs and depth-5 spines over the representatives; the both-compound trees also embedded as right-hand side of VarDef/Assign/Return), printed by the real Display and re-parsed by CPython's ast: every operator must keep exactly its operands and sides. End-to-end from Mamba text: every chain of <= 3 of the 22 binary operator tokens with unary prefixes, all bracketings, and the desugarings (inclusive range / exclusive slice bound, ?, isa, E-notation, sqrt, postfix receivers, lambda) parsed by the real parser and converted by the real generator; the expectation is the tree the Mamba parser built.",
+    design_ref="DESIGN.md §4 C10",
+    note="The source-level family bypasses the type checker through the public ASTTy::from(&AST) so that all operator mixes reach the printer; shapes the checker can never let through (call on a compound callee) are excluded. and/or are compared flattened (associative). `1Ek` printed as `10 ** k` is accepted as the same unit.",
+    technique="exhaustive small-scope enumeration of expression trees on the real printer/parser/generator, structural comparison via CPython ast",
+)
+
 REASON_PENDING = "check not built yet in this session (see DESIGN.md Appendix D build order); nothing is claimed for it"
 
 
